@@ -68,6 +68,51 @@ theorem axpyL_zero (v x : List α) (h : v.length = x.length) : axpyL v x 0 = v :
       rw [ih u h]
       simp
 
+/-- `f ⊙ (v + a x) = f ⊙ v + a (f ⊙ x)` (component-wise products, equal lengths) -/
+theorem zipWith_mul_axpyL (f v x : List α) (a : α) (h : v.length = x.length) :
+    List.zipWith (fun p q => p * q) f (axpyL v x a) =
+      axpyL (List.zipWith (fun p q => p * q) f v) (List.zipWith (fun p q => p * q) f x) a := by
+  induction f generalizing v x with
+  | nil => simp [axpyL]
+  | cons c t ih =>
+    cases v with
+    | nil =>
+      cases x with
+      | nil => simp [axpyL]
+      | cons b u => simp at h
+    | cons d w =>
+      cases x with
+      | nil => simp at h
+      | cons b u =>
+        simp only [List.length_cons, Nat.add_right_cancel_iff] at h
+        have := ih w u h
+        simp only [axpyL, List.zipWith_cons_cons] at this ⊢
+        rw [this]
+        congr 1
+        ring
+
+theorem tdotL_comm (f x y : List α) : tdotL f x y = tdotL f y x := by
+  unfold tdotL
+  induction f generalizing x y with
+  | nil => simp [dotL_nil_left]
+  | cons c t ih =>
+    cases x with
+    | nil => simp [dotL_nil_left, dotL_nil_right]
+    | cons a u =>
+      cases y with
+      | nil => simp [dotL_nil_left, dotL_nil_right]
+      | cons b w =>
+        simp only [List.zipWith_cons_cons, dotL_cons]
+        rw [ih u w]
+        ring
+
+/-- the frequency-weighted dot product is linear in the (axpy-updated) middle argument -/
+theorem tdotL_axpyL (f v x w : List α) (a : α) (h : v.length = x.length) (hf : f.length = v.length) :
+    tdotL f (axpyL v x a) w = tdotL f v w + a * tdotL f x w := by
+  unfold tdotL
+  rw [zipWith_mul_axpyL f v x a h, dotL_axpyL]
+  simp [hf, h]
+
 end Semiring
 
 end FeatModel.LA.Filter
